@@ -297,57 +297,14 @@ func runC15(c *Ctx) {
 	// V4
 	c.ruleI1("V4-injected-first")
 	c.Min("V4-injected-first", 9)
-	allowed := map[string]bool{"DataContext.Add": true, "DataContext.PluginLoader": true, "DataContext.Del": true}
-	for _, f := range c.AllFns {
-		x := c.Index(f)
-		eachInstr(f, func(in ssa.Instruction) {
-			var mv ssa.Value
-			switch t := in.(type) {
-			case *ssa.MapUpdate:
-				mv = t.Map
-			case *ssa.Call:
-				if args, ok := builtinCall(t, "delete"); ok {
-					mv = args[0]
-				}
-			}
-			if mv == nil {
-				return
-			}
-			if _, isBase := x.isFieldLoad(mv, "DataContext", "base"); isBase {
-				c.Check("V4-injected-table-writers", fnName(f), allowed[fnName(f)], in.Pos(), "the injected table is written in %s (allowed: Add, PluginLoader, Del): an assignment to a local must never create an injected name", fnName(f))
-			}
-		})
-	}
-	// ... nor through the writers: inside the interpreter (packages context and internal/...) only the
-	// construction of a data context calls Add (its built-in isNil); Add, Del and PluginLoader are the
-	// host's, and the engine's on the host's behalf. A rule's assignment that "starts a map under a new
-	// name" with dc.Add creates an injected name seen by every rule and every later call.
-	for _, f := range c.AllFns {
-		if f.Pkg == nil {
-			continue
-		}
-		pk := f.Pkg.Pkg.Path()
-		if pk != pContext && !strings.HasPrefix(pk, gpath("internal/")) {
-			continue
-		}
-		eachInstr(f, func(in ssa.Instruction) {
-			cc := callCommon(in)
-			if cc == nil {
-				return
-			}
-			cal := cc.StaticCallee()
-			if cal == nil || recvName(cal) != "DataContext" || cal.Pkg == nil || cal.Pkg.Pkg.Path() != pContext {
-				return
-			}
-			if n := cal.Name(); n != "Add" && n != "Del" && n != "PluginLoader" {
-				return
-			}
-			root := fnName(rootOf(f))
-			ctor := root == "NewDataContext" || root == "DataContext.loadInnerUDF"
-			c.Check("V4-injected-table-writers", root+"->"+fnName(cal), ctor, in.Pos(), "%s calls %s: inside the interpreter only the construction of a data context may add to the injected table", root, fnName(cal))
-		})
-	}
-	c.Min("V4-injected-table-writers", 4)
+	c.ruleInjectedTableWriters("V4-injected-table-writers")
+	// V9: "locals start undefined" also for the compound operators: `n += 1` computes from the current value
+	// of n as the data context gave it, and fails when that read failed (the operator rows of C02-S7) -- a
+	// zero value standing in for a local never assigned makes the local start at 0
+	c.only = func(key string) bool { return strings.HasPrefix(key, "Assignment.Evaluate#operator ") }
+	c.ruleS7("V9-compound-assignment-reads-the-local")
+	c.only = nil
+	c.Min("V9-compound-assignment-reads-the-local", 4)
 	// V6: what is read out of a rule's locals table never goes into the data context itself:
 	// the context is shared by every rule of the call, by later calls and by concurrent
 	// executions, the table belongs to one execution. A value looked up in the table and
@@ -408,4 +365,60 @@ func runC15(c *Ctx) {
 	c.only = func(key string) bool { return strings.Contains(key, "#ast-") }
 	c.ruleU2("V8-nothing-kept-on-shared-nodes")
 	c.only = nil
+}
+
+// ruleInjectedTableWriters: the injected table is written by Add, PluginLoader and Del only, and inside the
+// interpreter only the construction of a data context calls those.
+func (c *Ctx) ruleInjectedTableWriters(rule string) {
+	allowed := map[string]bool{"DataContext.Add": true, "DataContext.PluginLoader": true, "DataContext.Del": true}
+	for _, f := range c.AllFns {
+		x := c.Index(f)
+		eachInstr(f, func(in ssa.Instruction) {
+			var mv ssa.Value
+			switch t := in.(type) {
+			case *ssa.MapUpdate:
+				mv = t.Map
+			case *ssa.Call:
+				if args, ok := builtinCall(t, "delete"); ok {
+					mv = args[0]
+				}
+			}
+			if mv == nil {
+				return
+			}
+			if _, isBase := x.isFieldLoad(mv, "DataContext", "base"); isBase {
+				c.Check(rule, fnName(f), allowed[fnName(f)], in.Pos(), "the injected table is written in %s (allowed: Add, PluginLoader, Del): an assignment to a local must never create an injected name", fnName(f))
+			}
+		})
+	}
+	// ... nor through the writers: inside the interpreter (packages context and internal/...) only the
+	// construction of a data context calls Add (its built-in isNil); Add, Del and PluginLoader are the
+	// host's, and the engine's on the host's behalf. A rule's assignment that "starts a map under a new
+	// name" with dc.Add creates an injected name seen by every rule and every later call.
+	for _, f := range c.AllFns {
+		if f.Pkg == nil {
+			continue
+		}
+		pk := f.Pkg.Pkg.Path()
+		if pk != pContext && !strings.HasPrefix(pk, gpath("internal/")) {
+			continue
+		}
+		eachInstr(f, func(in ssa.Instruction) {
+			cc := callCommon(in)
+			if cc == nil {
+				return
+			}
+			cal := cc.StaticCallee()
+			if cal == nil || recvName(cal) != "DataContext" || cal.Pkg == nil || cal.Pkg.Pkg.Path() != pContext {
+				return
+			}
+			if n := cal.Name(); n != "Add" && n != "Del" && n != "PluginLoader" {
+				return
+			}
+			root := fnName(rootOf(f))
+			ctor := root == "NewDataContext" || root == "DataContext.loadInnerUDF"
+			c.Check(rule, root+"->"+fnName(cal), ctor, in.Pos(), "%s calls %s: inside the interpreter only the construction of a data context may add to the injected table", root, fnName(cal))
+		})
+	}
+	c.Min(rule, 4)
 }
